@@ -81,27 +81,59 @@ class ExprMixin:
         return outs[0]
 
     def merge(self, base: State, outs):
-        """merge forked outcomes of a side-effect-free evaluation into one value-level ite"""
+        """merge forked outcomes of an evaluation into one value-level if-then-else.  Branch conditions
+        (State.assume_branch) select the value; the facts gathered on each branch are kept as
+        implications under that branch's condition."""
         if len(outs) == 1:
             return outs
         if not outs:
             raise Unsupported("expression has no feasible outcome")
-        n = len(base.pc)
+        n = min(len(s.pc) for s, _ in outs)
+        first = outs[0][0].pc
+        for s, _ in outs[1:]:
+            i = 0
+            while i < n and (s.pc[i] is first[i] or s.pc[i].eq(first[i])):
+                i += 1
+            n = i
+        if any(isinstance(v, VListRef) for _, v in outs):
+            vals = self.align_lists(base, [s.lists[v.lid] if isinstance(v, VListRef) else v for s, v in outs])
+            outs = [(s, v2) for (s, _), v2 in zip(outs, vals)]
+        conds, facts = [], []
         for s, _ in outs:
-            if s.objs.keys() - base.objs.keys() and False:
-                raise Unsupported("cannot merge outcomes with heap effects")
-        st0, val = outs[-1]
-        for s, v in reversed(outs[:-1]):
-            cond = z3.And(*s.pc[n:]) if len(s.pc) > n else z3.BoolVal(True)
-            val = ite_val(cond, v, val)
+            bc = [f for i, f in enumerate(s.pc) if i >= n and i in s.bidx]
+            fc = [f for i, f in enumerate(s.pc) if i >= n and i not in s.bidx]
+            if not bc:
+                raise Unsupported("cannot merge outcomes: a fork without a recorded branch condition")
+            conds.append(z3.simplify(z3.And(*bc)) if len(bc) > 1 else bc[0])
+            facts.append(fc)
+        val = outs[-1][1]
+        for (s, v), c in zip(reversed(outs[:-1]), reversed(conds[:-1])):
+            val = ite_val(c, v, val)
+        common = list(first[:n])
+        keep_b = {i for i in outs[0][0].bidx if i < n}
         res = base
-        # keep facts common to all outcomes as implications
-        for s, _ in outs:
-            delta = s.pc[n:]
-            if len(delta) > 1:
-                res.assume(z3.Implies(delta[0], z3.And(*delta[1:])))
+        res.pc[:] = common
+        res.bidx = keep_b
+        for c, fc in zip(conds, facts):
+            if fc:
+                res.assume(z3.Implies(c, z3.And(*fc)))
+        res.assume(z3.Or(*conds))
         res.lists.update({k: v for s, _ in outs for k, v in s.lists.items() if k not in res.lists})
+        for k2, v2 in outs[0][0].objs.items():
+            if k2 not in res.objs and all(k2 in s.objs and s.objs[k2] == v2 for s, _ in outs[1:]):
+                res.objs[k2] = v2
+        if isinstance(val, VList):
+            val = res.new_list(val)
         return [(res, val)]
+
+    def ev_seq(self, nodes, st):
+        """evaluate expressions left to right; forks are kept (cartesian over outcomes)"""
+        if not nodes:
+            yield st, []
+            return
+        for s, v in self.ev(nodes[0], st):
+            for s2, rest in self.ev_seq(nodes[1:], s):
+                yield s2, [v] + rest
 
     def ev_Constant(self, node, st):
         c = node.value
@@ -170,19 +202,40 @@ class ExprMixin:
                 raise Unsupported("unary op")
 
     def ev_BoolOp(self, node, st):
-        # value-level: `a and b` = b if truth(a) else a ; evaluated without forking, later operands
-        # under the guard of the earlier ones (for their safety obligations)
+        # value-level: `a and b` = b if truth(a) else a ; later operands are evaluated under the guard
+        # of the earlier ones (for their safety obligations).  Operand evaluation may fork.
         is_and = isinstance(node.op, ast.And)
-        s = st
-        vals, truths = [], []
-        depth = len(s.guards)
-        for sub in node.values:
-            s, v = self.ev1(sub, s)
-            t = self.truth(s, v)
-            vals.append(v)
-            truths.append(t)
-            s.guards.append(t if is_and else z3.Not(t))
-        del s.guards[depth:]
+        depth = len(st.guards)
+
+        def rec(i, s, vals, truths):
+            if i == len(node.values):
+                yield s, vals, truths
+                return
+            for s1, v in self.ev(node.values[i], s):
+                t = self.truth(s1, v)
+                s1.guards.append(t if is_and else z3.Not(t))
+                yield from rec(i + 1, s1, vals + [v], truths + [t])
+
+        for s, vals, truths in rec(0, st, [], []):
+            del s.guards[depth:]
+            yield from self._boolop_result(s, is_and, vals, truths)
+
+    def _boolop_result(self, s, is_and, vals, truths):
+        anylist = any(isinstance(v, (VListRef, VList)) for v in vals)
+        vals = [s.lists[v.lid] if isinstance(v, VListRef) else v for v in vals]
+        if anylist:
+            vals = self.align_lists(s, vals)
+            if len(vals) == 2 and not z3.is_true(z3.simplify(truths[0])) and not z3.is_false(z3.simplify(truths[0])):
+                # lists are not merged into if-then-else arrays: fork on the truth of the first operand
+                s2 = s.fork()
+                s.assume_branch(truths[0])
+                s2.assume_branch(z3.Not(truths[0]))
+                first, second = (vals[1], vals[0]) if is_and else (vals[0], vals[1])
+                if self.feasible(s):
+                    yield s, (s.new_list(first) if isinstance(first, VList) else first)
+                if self.feasible(s2):
+                    yield s2, (s2.new_list(second) if isinstance(second, VList) else second)
+                return
         res = vals[-1]
         for v, t in zip(reversed(vals[:-1]), reversed(truths[:-1])):
             try:
@@ -194,7 +247,25 @@ class ExprMixin:
                 tt = z3.And(*truths) if is_and else z3.Or(*truths)
                 res = VBool(tt)
                 break
+        if isinstance(res, VList):
+            res = s.new_list(res)
         yield s, res
+
+    def align_lists(self, st, vals):
+        """give empty literal lists (element kind not yet known) the element kind of their siblings"""
+        kinds = [v.elem for v in vals if isinstance(v, VList) and not (v.elem is NONE and not v.arrs)]
+        if not kinds:
+            return vals
+        ek = self.join_kind(kinds)
+        out = []
+        for v in vals:
+            if isinstance(v, VList):
+                if v.elem is NONE and not v.arrs:
+                    v = self.fresh_list(ek, 'empty', n=z3.IntVal(0))
+                elif v.elem != ek:
+                    v = self.coerce(st, v, LIST(ek))
+            out.append(v)
+        return out
 
     def ev_IfExp(self, node, st):
         s, c = self.ev1(node.test, st)
@@ -209,6 +280,8 @@ class ExprMixin:
             a = s.lists[a.lid]
         if isinstance(b, VListRef):
             b = s.lists[b.lid]
+        if isinstance(a, VList) or isinstance(b, VList):
+            a, b = self.align_lists(s, [a, b])
         r = ite_val(t, a, b)
         if isinstance(r, VList):
             r = s.new_list(r)
